@@ -302,3 +302,6 @@ Definition avg_number_of_nodes (g : graph) : Z * Z :=
 (** * clear / clear_edges / freeze *)
 Definition clear (g : graph) : graph := mkG (g_dir g) (g_rem g) [] [] [] [] 0 (g_frozen g).
 Definition clear_edges (g : graph) : graph := with_snaps (with_events (with_edges g []) []) [].
+
+(* keep [simpl] from unfolding the big step function inside proofs *)
+Arguments add_interaction : simpl never.
